@@ -101,7 +101,7 @@ fire("tostr-concat-prec", ["C03", "C17"], "precedence", E("src/lib.rs", "       
 fire("pgroup-no-count", ["C16", "C19"], "curr_group", E("src/parse.rs", "            self.curr_group += 1; // this is a capture group\n            if let Some((id, skip)) = parse_id(&self.re[ix + 2..], \"<\", \">\", false) {", "            if let Some((id, skip)) = parse_id(&self.re[ix + 2..], \"<\", \">\", false) {"))
 fire("flags-no-restore", ["C19"], "restored", E("src/parse.rs", "                    self.flags = oldflags;\n                    return Ok((ix + 1, child));", "                    return Ok((ix + 1, child));"))
 fire("backref-no-insert", ["C01", "C19"], "registering", E("src/parse.rs", "                self.numeric_backrefs = true;\n                self.backrefs.insert(group);", "                self.numeric_backrefs = true;"))
-fire("cond-alt-destructuring", ["C15"], "destructuring", E("src/parse.rs", "        if end == next {\n            // Backreference validity checker", "        let (if_true, if_false) = match if_true {\n            Expr::Alt(mut v) if if_false == Expr::Empty => {\n                let first = v.remove(0);\n                (first, Expr::Alt(v))\n            }\n            other => (other, if_false),\n        };\n        if end == next {\n            // Backreference validity checker"))
+fire("cond-alt-destructuring", ["C15"], "destructuring", E("src/parse.rs", "        if end == self.optional_whitespace(next)? {\n            // Backreference validity checker", "        let (if_true, if_false) = match if_true {\n            Expr::Alt(mut v) if if_false == Expr::Empty => {\n                let first = v.remove(0);\n                (first, Expr::Alt(v))\n            }\n            other => (other, if_false),\n        };\n        if end == self.optional_whitespace(next)? {\n            // Backreference validity checker"))
 fire("cond-false-skips-bar", ["C15"], "false branch", E("src/parse.rs", "let (false_end, false_branch) = self.parse_re(end + 1, depth)?;", "let (false_end, false_branch) = self.parse_branch(end + 1, depth)?;"))
 fire("escape-z", ["C19"], "EndText", E("src/parse.rs", "            (end, Expr::Assertion(Assertion::EndText))\n        } else if b == b'Z'", "            (end, Expr::Assertion(Assertion::EndLine { crlf: false }))\n        } else if b == b'Z'"))
 fire("k-quote-relative", ["C19"], "allow_relative", E("src/parse.rs", ".parse_named_backref(end, \"'\", \"'\", true, &|group| Expr::Backref(group));", ".parse_named_backref(end, \"'\", \"'\", false, &|group| Expr::Backref(group));"))
